@@ -18,9 +18,16 @@ theorem foldl_congr_mem {α β : Type} (f g : β → α → β) :
     rw [h c a (by simp)]
     exact ih _ (fun c a' ha' => h c a' (by simp [ha']))
 
-/-- the scan rows whose key slices to `k`, as sources (column `j`, the row's metadata) -/
+/-- the scan rows whose key slices to `k` (agree with `k` on the kept dims), in scan order -/
+def groupMembers (q : Query) (rows : List Row) (k : Key) : List Row :=
+  rows.filter (fun r => gSlice q r.key == k)
+
+/-- a scan row as a source: its column `j` and its metadata -/
+def srcOf (metas : List KeyMeta) (j : Nat) (r : Row) : Src := (r.cols.getD j none, rowPt metas r)
+
+/-- the sources of the group `k` -/
 def groupSrcs (q : Query) (metas : List KeyMeta) (rows : List Row) (k : Key) (j : Nat) : List Src :=
-  (rows.filter (fun r => gSlice q r.key == k)).map (fun r => (r.cols.getD j none, rowPt metas r))
+  (groupMembers q rows k).map (srcOf metas j)
 
 /-- column `i` of the output row with key `k` is the successive `SubMerge` of column `j` of the
     scan rows whose key slices to `k` -/
@@ -40,7 +47,7 @@ theorem groupRows_col (cfg : TableCfg) (now : Int) (q : Query) (pl : Plan) (inFi
     rw [List.getD_eq_getElem?_getD, List.getElem?_map]
     cases q.outFields[i]? <;> rfl
   rw [hnone]
-  unfold subMergeAll groupSrcs
+  unfold subMergeAll groupSrcs groupMembers srcOf
   rw [List.foldl_map]
   apply foldl_congr_mem
   intro c r hr
@@ -69,7 +76,7 @@ theorem sem_groupRows_lem (cfg : TableCfg) (now : Int) (q : Query) (pl : Plan) (
     (fun r hr => (hrows r hr).1) k]
   have hall : ∀ op ∈ groupSrcs q metas rows k j, SqOk cfg.res op.1 ∧ SqWF f.ex op.1 := by
     intro op hop
-    unfold groupSrcs at hop
+    unfold groupSrcs groupMembers srcOf at hop
     obtain ⟨r, hr, rfl⟩ := List.mem_map.mp hop
     exact (hrows r (List.mem_filter.mp hr).1).2
   have h := (sem_subMergeAll_lem hv hp hs w (groupSrcs q metas rows k j) none hall trivial
@@ -77,7 +84,7 @@ theorem sem_groupRows_lem (cfg : TableCfg) (now : Int) (q : Query) (pl : Plan) (
   rw [h, at_none]
 
 /-- … and read on raw points: if every contributing stored state is the accumulation of the raw
-    points of its (key, period), the cell is the accumulation of all raw points of the bucket -/
+    points of its (row key, period), the cell is the accumulation of all raw points of the bucket -/
 theorem sem_groupRows_points_lem (x : Ext) (cfg : TableCfg) (now : Int) (q : Query) (pl : Plan)
     (inFields : List Field) (metas : List KeyMeta) (rows : List Row) (hstride : pl.strideSlice = 0) {kk : Nat}
     (w : SMWindow (gResOf cfg pl) cfg.res kk (gAsOfOf cfg now pl) (gUntilOf cfg now pl))
@@ -88,18 +95,18 @@ theorem sem_groupRows_points_lem (x : Ext) (cfg : TableCfg) (now : Int) (q : Que
     (hrows : ∀ r ∈ rows, j < r.cols.length ∧ SqOk cfg.res (r.cols.getD j none) ∧ SqWF f.ex (r.cols.getD j none))
     (k : Key) (T : Int) (hT : (gUntilOf cfg now pl - T) % gResOf cfg pl = 0)
     (hW : gAsOfOf cfg now pl < T ∧ T ≤ gUntilOf cfg now pl)
-    (pts : Src → Int → List Pt)
-    (hstore : ∀ op ∈ groupSrcs q metas rows k j,
+    (pts : Row → Int → List Pt)
+    (hstore : ∀ r ∈ groupMembers q rows k,
       ∀ t ∈ bucketTimes cfg.res kk (gAsOfOf cfg now pl) (gUntilOf cfg now pl) T,
-        op.1.at f.ex cfg.res t = f.ex.acc x (pts op t)) :
+        (r.cols.getD j none).at f.ex cfg.res t = f.ex.acc x (pts r t)) :
     ((colsOf (q.outFields.map (fun _ => (none : Sq))) (groupRows cfg now q pl inFields metas rows).1 k).getD i none).at
         f.ex (gResOf cfg pl) T =
-      f.ex.acc x (srcPoints pts (groupSrcs q metas rows k j)
+      f.ex.acc x (memberPoints pts (groupMembers q rows k)
         (bucketTimes cfg.res kk (gAsOfOf cfg now pl) (gUntilOf cfg now pl) T)) := by
   rw [sem_groupRows_lem cfg now q pl inFields metas rows hstride w i f hf hv hp hs j inF hin hex hone hrows k T hT,
     if_pos hW]
-  have := mergeAllOnto_acc x hv hp cfg.res pts _ (groupSrcs q metas rows k j) [] hstore
-  simpa [Ex.acc] using this
+  have := mergeAllOnto_acc x hv hp cfg.res (srcOf metas j) pts _ (groupMembers q rows k) [] hstore
+  simpa [Ex.acc, groupSrcs] using this
 
 /-- the output rows: one per sliced key of the scan rows, none twice; each row holds the columns
     `colsOf` reads -/
@@ -164,9 +171,36 @@ theorem groupRows_cell_inv (cfg : TableCfg) (now : Int) (q : Query) (pl : Plan) 
     (fun r hr => (hrows r hr).1) k]
   have hall : ∀ op ∈ groupSrcs q metas rows k j, SqOk cfg.res op.1 ∧ SqWF f.ex op.1 := by
     intro op hop
-    unfold groupSrcs at hop
+    unfold groupSrcs groupMembers srcOf at hop
     obtain ⟨r, hr, rfl⟩ := List.mem_map.mp hop
     exact (hrows r (List.mem_filter.mp hr).1).2
   exact (sem_subMergeAll_lem hv hp hs w (groupSrcs q metas rows k j) none hall trivial (fun _ _ => rfl)).1
+
+/-- the cell column (output key `k`, selected field `i`) of `groupRows` -/
+def groupCell (cfg : TableCfg) (now : Int) (q : Query) (pl : Plan) (inFields : List Field)
+    (metas : List KeyMeta) (rows : List Row) (k : Key) (i : Nat) : Sq :=
+  (colsOf (q.outFields.map (fun _ => (none : Sq))) (groupRows cfg now q pl inFields metas rows).1 k).getD i none
+
+/-- the side conditions under which the cell column `i` of `groupRows` is characterised: the
+    selected field `f` (`i`-th of the query) is the `j`-th scanned table field, sub-merged directly -/
+structure GroupCell (cfg : TableCfg) (now : Int) (q : Query) (pl : Plan) (inFields : List Field)
+    (rows : List Row) (kk : Nat) (i : Nat) (f : Field) (j : Nat) : Prop where
+  /-- no STRIDE -/
+  noStride : pl.strideSlice = 0
+  /-- resolutions and window as `planLocal` produces them (`planLocal_establishes_window`) -/
+  window : SMWindow (gResOf cfg pl) cfg.res kk (gAsOfOf cfg now pl) (gUntilOf cfg now pl)
+  /-- `f` is the `i`-th selected field -/
+  outField : q.outFields[i]? = some f
+  /-- `Validate()` accepts it, no PERCENTILE, no SHIFT -/
+  valid : f.ex.valid = true
+  noPtile : f.ex.noPtile = true
+  noShift : f.ex.shiftOf = 0
+  /-- the `j`-th scanned field has the same expression … -/
+  inField : ∃ inF, inFields[j]? = some inF ∧ inF.ex = f.ex
+  /-- … and is the only one with a sub-merger for `f`, the direct one
+      (`direct_submerger_of_table_aggregate`) -/
+  oneHot : OneHot (dedupInputs (inFields.map (·.ex)) (f.ex.subMergers (inFields.map (·.ex)))) j f.ex
+  /-- every scan row has column `j`: a stored sequence on the table grid with well-formed states -/
+  scan : ∀ r ∈ rows, j < r.cols.length ∧ SqOk cfg.res (r.cols.getD j none) ∧ SqWF f.ex (r.cols.getD j none)
 
 end Zeno
